@@ -112,6 +112,7 @@ def canon_acc(obs):
 class Prop:
     pid = 'C16'
     props_file = 'Props/C16.v'
+    extra_targets = ['Model/OpenSession.vo']   # composition used by the wire_* cases, not a dependency of Props/C16.v
     required_theorems = ['negotiate_mirror', 'family_in_force_iff_both', 'flags_in_force_iff_both', 'graceful_restart_mirror', 'send_max_iff_addpath_tx', 'llgr_mirror', 'contains_eq_bit_prefix', 'contains_beyond_width', 'send_max_any_filter_refuted', 'llgr_all_entries_refuted', 'accept_iff_permitted', 'accept_only_if_text', 'session_fields_from_config', 'dynamic_peer_removed', 'dynamic_peers_have_connections', 'peer_group_inheritance', 'local_cap_from_config', 'admission_independent_of_group_order', 'overlapping_groups_order_dependent', 'stale_task_removes_live_dynamic_peer_refuted']
     correspondence_name = ('Model/Negotiate.v vs packet/src/bgp.rs IpNet::contains, PeerCodec::negotiate (harness/hx-neg) and '
                            'daemon fsm.rs effective send-max, event/mod.rs negotiate_gr/negotiate_llgr (harness/daemon/event_hx.rs verif_neg_cases); '
